@@ -337,10 +337,18 @@ fn visit_tcp(
         _ => None,
     };
 
+    // detect_win_multiplicator expects the IP + TCP header size in bytes (40 for plain IPv4, 60 for
+    // IPv6); `ip_package_header_length` is the IHL in 32-bit words for IPv4 and 40 bytes for IPv6
+    let total_header_bytes: u16 = match version {
+        IpVersion::V4 => (ip_package_header_length as u16)
+            .saturating_mul(4)
+            .saturating_add(20),
+        _ => (ip_package_header_length as u16).saturating_add(20),
+    };
     let wsize: WindowSize = detect_win_multiplicator(
         tcp.get_window(),
         mss.unwrap_or(0),
-        ip_package_header_length as u16,
+        total_header_bytes,
         olayout.contains(&TcpOption::TS),
         &version,
     );
